@@ -183,6 +183,37 @@ def bip32_body_consts():
             ("bip32_tostr_soft_suffix", lits[1][1]), ("bip32_tostr_hard_suffix", lits[2][1])]
 
 
+def substrate_body_consts():
+    """Literals inside SubstratePathParser.Parse, SubstratePathElem.__init__ and __IsElemValid: the
+       separator "/" (startswith / rfind / replace) and the bound of `elem.rfind("/") < 2`."""
+    seps, ints = set(), []
+    for cls, fn in (("SubstratePathParser", "Parse"), ("SubstratePathElem", "__init__"),
+                    ("SubstratePathElem", "__IsElemValid")):
+        f = find_func(SP, cls, fn)
+        body = [n for n in f.body if not (isinstance(n, ast.Expr) and isinstance(n.value, ast.Constant))]
+        for st in body:
+            for n in ast.walk(st):
+                if isinstance(n, ast.JoinedStr):
+                    continue
+                if isinstance(n, ast.Call) and isinstance(n.func, ast.Attribute) \
+                        and n.func.attr in ("startswith", "rfind", "replace", "findall"):
+                    for a in n.args:
+                        if isinstance(a, ast.Constant) and isinstance(a.value, str):
+                            seps.add(a.value)
+                if isinstance(n, ast.Compare) and isinstance(n.comparators[0], ast.Constant) \
+                        and isinstance(n.comparators[0].value, int) and not isinstance(n.comparators[0].value, bool):
+                    ints.append((ast.unparse(n.left), type(n.ops[0]).__name__, n.comparators[0].value))
+    if seps != {"/", ""}:
+        fail(f"{SP}: unexpected string literals in the parser / validity test: {sorted(seps)}")
+    want = [("len(path)", "Gt", 0), ("elem.rfind('/')", "Lt", None), ("len(elem.replace('/', ''))", "Gt", 0)]
+    if [(a, b) for a, b, _ in ints] != [(a, b) for a, b, _ in want] or ints[0][2] != 0 or ints[2][2] != 0:
+        fail(f"{SP}: unexpected integer comparisons {ints}")
+    pr = find_func(SP, "SubstratePathParser", "Parse")
+    if ast.dump(ast.parse("re.findall(SubstratePathConst.RE_PATH, path)", mode="eval").body) not in ast.dump(pr):
+        fail(f"{SP}: Parse does not use re.findall(RE_PATH, path)")
+    return "/", ints[1][2]
+
+
 def generate():
     out = []
     for name, f, cls, attr, kind in TABLE:
@@ -191,6 +222,9 @@ def generate():
     for name, v in bip32_body_consts():
         ty, txt = emit("str", v)
         out.append(f"Definition {name} : {ty} := {txt}.")
+    sep, bound = substrate_body_consts()
+    out.append("Definition sub_body_slash : list N := %s." % emit("str", sep)[1])
+    out.append("Definition sub_rfind_bound : nat := %s." % emit("nat", bound)[1])
     encs = scale_int_encoders()
     out.append("(* SubstratePathConst.SCALE_INT_ENCODERS in dict order: (maximal bit length, encoder byte length) *)")
     out.append("Definition sub_scale_int_encoders : list (N * nat) := [%s]." %
